@@ -268,6 +268,34 @@ def url_section(ctx, res):
                                    path, served[path][0], cmd), "case": case, "observed": {"this": proj[path][cmd], "yaml": ref[cmd]}})
 
 
+def merge_key_section(ctx, res):
+    """a YAML file written with an anchor and a merge key, one of the inherited keys overridden - and the same configuration written out in
+    JSON and TOML: list / show / run agree"""
+    yaml_text = ('tasks:\n  t2: &base\n    dir: "/"\n    env: {A: "1", B: "2"}\n    command: [\'echo "t2 $A" >> "$PROJ/out"\', \'/bin/pwd >> "$PROJ/out"\']\n'
+                 '  t1:\n    <<: *base\n    dir: "/tmp"\n    command: [\'echo "t1 $A $B" >> "$PROJ/out"\', \'/bin/pwd >> "$PROJ/out"\']\n')
+    flat = {"tasks": {"t1": {"dir": "/tmp", "env": {"A": "1", "B": "2"}, "command": ['echo "t1 $A $B" >> "$PROJ/out"', '/bin/pwd >> "$PROJ/out"']},
+                      "t2": {"dir": "/", "env": {"A": "1", "B": "2"}, "command": ['echo "t2 $A" >> "$PROJ/out"', '/bin/pwd >> "$PROJ/out"']}}}
+    texts = {"yaml": yaml_text, "json": fmtlib.serialise(flat, "json"), "toml": fmtlib.serialise(flat, "toml")}
+    cmds = [["list"], ["--raw", "run", "task", "t1"], ["--raw", "run", "task", "t2"]]
+    jobs = [{"id": i * len(cmds) + k, "files": {"cfg." + fmt: texts[fmt]}, "argv": ["-c", "cfg." + fmt] + cmd, "keep": ["out"], "timeout": 20, "fmt": fmt, "cmd": " ".join(cmd)}
+            for i, fmt in enumerate(("yaml", "json", "toml")) for k, cmd in enumerate(cmds)]
+    out = clilib.run_cli(ctx.workdir + "/mergekey", jobs, timeout=20)
+    proj = {}
+    for j in jobs:
+        r = out[j["id"]]
+        proj.setdefault(j["fmt"], {})[j["cmd"]] = (r["rc"], "" if j["cmd"].startswith("--raw") else (r.get("out") or ""), r["files"].get("out"), bool(r["timeout"] or clilib.crashed(r)))
+    res.evaluations += 3
+    res.count("yaml-merge-key")
+    res.nontrivial_keys.add("yaml-merge-key")
+    case = {"kind": "mergekey", "texts": texts}
+    if any(v[3] for d in proj.values() for v in d.values()):
+        res.violations.append({"class": None, "what": "loading or running crashed / hung in some format (YAML written with a merge key)", "case": case, "observed": str(proj)[:1200]})
+    elif not (proj["yaml"] == proj["json"] == proj["toml"]) or proj["yaml"]["list"][0] != 0:
+        cmd = next((c for c in proj["yaml"] if not (proj["yaml"][c] == proj["json"][c] == proj["toml"][c])), "list")
+        res.violations.append({"class": None, "what": "a YAML file using an anchor and a merge key (an inherited key overridden) and the same configuration written out in JSON / TOML behave differently (`taskctl %s`)" % cmd,
+                               "case": case, "observed": {f: proj[f][cmd] for f in proj}})
+
+
 def run(ctx):
     res = vlib.Result()
     res.rule = ("scalars (strings incl. empty / numeric-looking, booleans, integers incl. 2^53 and beyond, decimals) at every typed position (env, task variables, top-level variables: string; "
@@ -345,5 +373,7 @@ def run(ctx):
                     break
     if not ctx.replay_cases or any(c.get("kind") == "url" for c in ctx.replay_cases):
         url_section(ctx, res)
+    if not ctx.replay_cases or any(c.get("kind") == "mergekey" for c in ctx.replay_cases):
+        merge_key_section(ctx, res)
     res.samples = [{"val": sc[0]["val"], "pos": sc[0]["pos"]}] + ([{"conf": confs[0]}] if not ctx.replay_cases else [])
     return res
